@@ -303,16 +303,16 @@ def initializer_deflation(d, ctx):
 def predict_constructed_model(d, ctx):
     import pb_bss.distribution as dist
     from pbv import gen
-    kind = d.choice(['cacgmm', 'cacgmm', 'cwmm', 'gmm', 'vmfmm'])
+    kind = d.choice(['cacgmm', 'cacgmm', 'cwmm', 'cbmm', 'gmm', 'vmfmm'])
     lead = tuple(d.int(1, 3) for _ in range(d.int(0, 1)))
-    K, D, N = d.int(1, 5), d.int(2, 8), d.int(1, 12)
+    K, D, N = d.int(1, 5), d.int(2, 8 if kind != 'cbmm' else 5), d.int(1, 12)
     single = d.int(0, 2) == 0
     rng = d.rng()
     w = rng.dirichlet(np.ones(K) * d.choice([0.3, 1.0, 5.0]), size=lead)[..., None]
     case = mm.Case(kind=kind, lead=lead, K=K, D=D, N=N)
     case.meta.update(single=single)
     mask = None
-    if kind in ('cacgmm', 'cwmm'):
+    if kind in ('cacgmm', 'cwmm', 'cbmm'):
         y = gen.cnormal(rng, (*lead, N, D))
         protos = gen.unit(gen.cnormal(rng, (*lead, K, D)))
         # some observations right on a class prototype (extreme log-pdf gaps)
@@ -353,6 +353,18 @@ def predict_constructed_model(d, ctx):
         model = dist.CWMM(weight=w, complex_watson=dist.ComplexWatson(
             mode=protos, concentration=kappa))
         ctx.describe(kind=kind, lead=lead, K=K, D=D, N=N, single=single)
+    elif kind == 'cbmm':
+        from pb_bss.distribution.complex_bingham import ComplexBingham
+        V = np.empty((*lead, K, D, D), dtype=np.complex128)
+        lam = np.empty((*lead, K, D))
+        for idx in np.ndindex(*lead, K):
+            V[idx] = gen.haar_unitary(rng, D)
+            e = -np.concatenate([[0.0], np.cumsum(10 ** rng.uniform(-1, 1.3, size=D - 1))])
+            lam[idx] = rng.permutation(e)          # any order of the eigenvalues
+        model = dist.CBMM(weight=w, complex_bingham=ComplexBingham(V, lam))
+        ctx.describe(kind=kind, lead=lead, K=K, D=D, N=N, single=False)
+        y = y.astype(np.complex128)
+        case.meta['single'] = False
     elif kind == 'gmm':
         cond = d.log10(0, 6)
         cov = gen.spd(rng, D, cond, 1.0, (*lead, K))
@@ -367,6 +379,10 @@ def predict_constructed_model(d, ctx):
     case.y = y
     post = ctx.lib(mm.predict, model, case)
     check_valid(post, case, 'predict', mask=mask)
+    # a model object is not changed by being used: the second call agrees
+    again = ctx.lib(mm.predict, model, case)
+    require(np.array_equal(post, again, equal_nan=True), 'second-predict-differs',
+            f'max diff {np.max(np.abs(post - again)):.3e}', kind=kind)
     lp = ctx.lib(mm.component_log_pdf, model, case)
     if np.any(np.isnan(lp)) or np.any(lp == np.inf):
         raise Borderline('component density overflow')
